@@ -62,7 +62,7 @@ def stab : Variant → Bool
 
 /-- same value: identical, or both are copies of inputs that compare equal -/
 def sameVal (i : In) (a b : AV) : Bool :=
-  a == b || (i.ord == .eq && a.cs.length == 1 && b.cs.length == 1 && a.tag != .none && b.tag != .none)
+  a == b || (i.ord == .eq && a.tag != .none && b.tag != .none)
 
 /-! ## logaddexp -/
 
